@@ -191,7 +191,10 @@ partial def seqSteps (ω : Oracle) (n : Nat) (idx : Nat) (model impl : Pool) (v 
     for d in dump do
       if !d.same && !d.frame.rect? then v := { v with c01 := firstFail v.c01 s!"fail@{idx}:not-rectangular" }
     if v.corr == "ok" then
-      if Frame.toCSV ω f != bytes then v := { v with corr := s!"fail@{idx}:csv-bytes-differ" }
+      let sameText := Frame.toCSV ω f == bytes || (match Csv.readAll bytes, Csv.readAll (Frame.toCSV ω f) with
+        | .ok a, .ok b => a == b
+        | _, _ => false)
+      if !sameText then v := { v with corr := s!"fail@{idx}:csv-text-reads-differently" }
       else match Frame.fromCSV ω bytes, status with
         | .ok m, "ok" =>
           if !(impl'.length == impl.length + 1 && frameApprox m (impl'.getLast?.getD [])) then
